@@ -565,7 +565,10 @@ def compile(
             for typed_input in typed_inputs
         ]
         in_circuits = [
-            typed_input if isinstance(typed_input, Circuit) else Circuit(1)
+            typed_input if isinstance(typed_input, Circuit)
+            else Circuit.from_unitary(typed_input)
+            if isinstance(typed_input, UnitaryMatrix)
+            else Circuit(typed_input.num_qudits, typed_input.radixes)
             for typed_input in typed_inputs
         ]
 
